@@ -45,7 +45,7 @@ namespace Wormhole
     `pair a b`: a value `v` for which Python's `v[0]` and `v[1]` succeed and give `a` and `b` (an array of
     at least two items, or a string of at least two characters); only `client_version` is ever indexed, for
     every other look-up a `pair` behaves like `other`.
-    `other`: array / object / float -- anything the handlers would choke on or pass through opaquely. -/
+    `other`: array / object / float -- anything the handlers would choke on or pass through without looking inside. -/
 inductive JVal where
   | null
   | bool (b : Bool)
